@@ -377,4 +377,98 @@ theorem flush_settled (s : S) (hr : Reachable s) (hns : s.stopped = false) (hs :
   refine ⟨s2, h2, ?_, he, hm⟩
   rw [← next_of_some s s2 .flush h2]; exact hr.next _
 
+/-! ### all schedules, not one scheduler -/
+
+/-- the steps of the run loop and of the consumer (no new writes, no Close) -/
+inductive LStep where
+  | consume | send | recv | fire
+deriving Repr, DecidableEq
+
+def lstep (s : S) : LStep → Option S
+  | .consume => consume s
+  | .send => send s
+  | .recv => recv s
+  | .fire => fire s
+
+def LStep.toStep : LStep → Step
+  | .consume => .consume | .send => .send | .recv => .recv | .fire => .fire
+
+/-- run a schedule of loop/consumer steps, each of which must be enabled when it is taken -/
+def runE (s : S) : List LStep → Option S
+  | [] => some s
+  | st :: rest => (lstep s st).bind (fun s' => runE s' rest)
+
+/-- no loop/consumer step is enabled: the schedule cannot be extended -/
+def Quiescent (s : S) : Prop := ∀ st : LStep, lstep s st = none
+
+theorem lstep_spec (s s' : S) (st : LStep) (hr : Reachable s) (h : lstep s st = some s') :
+    Reachable s' ∧ mu s' + 1 ≤ mu s ∧ env s' = env s ∧ (MarkerLast s → MarkerLast s') := by
+  have hr' : Reachable s' := by
+    have : next s st.toStep = s' := by
+      cases st <;> exact next_of_some _ _ _ h
+    rw [← this]; exact hr.next _
+  refine ⟨hr', ?_⟩
+  cases st with
+  | consume =>
+    obtain ⟨h1, h2, h3, h4⟩ := consume_mu s s' h
+    refine ⟨by omega, h2, ?_⟩
+    rintro (⟨pre, hp⟩ | ⟨hq, hb⟩)
+    · exact Or.inl ⟨pre, by rw [h3]; exact hp⟩
+    · exact Or.inr ⟨by rw [h4]; exact hq, by rw [h3]; exact hb⟩
+  | send =>
+    obtain ⟨h1, h2, h3, h4⟩ := send_mu s s' h
+    refine ⟨by omega, h2, ?_⟩
+    rintro (⟨pre, hp⟩ | ⟨hq, hb⟩)
+    · exact Or.inl ⟨pre, by rw [h3]; exact hp⟩
+    · exact Or.inr ⟨by rw [h4]; exact hq, by rw [h3]; exact hb⟩
+  | recv =>
+    obtain ⟨h1, h2, h3⟩ := recv_mu s s' h
+    exact ⟨h1, h2, h3⟩
+  | fire =>
+    obtain ⟨h1, h2, h3, h4⟩ := fire_mu s s' hr.inv h
+    refine ⟨by omega, h2, ?_⟩
+    rintro (⟨pre, hp⟩ | ⟨_, hb⟩)
+    · exact Or.inl ⟨pre, by rw [h3]; exact hp⟩
+    · exact Or.inr ⟨h4, by rw [h3]; exact hb⟩
+
+theorem runE_spec (sched : List LStep) (s s' : S) (hr : Reachable s) (h : runE s sched = some s') :
+    Reachable s' ∧ mu s' + sched.length ≤ mu s ∧ env s' = env s ∧ (MarkerLast s → MarkerLast s') := by
+  induction sched generalizing s with
+  | nil => simp only [runE, Option.some.injEq] at h; subst h; exact ⟨hr, by simp, rfl, fun h => h⟩
+  | cons st rest ih =>
+    simp only [runE] at h
+    cases h1 : lstep s st with
+    | none => simp [h1] at h
+    | some s1 =>
+      simp only [h1, Option.bind_some] at h
+      obtain ⟨a, b, c, d⟩ := lstep_spec s s1 st hr h1
+      obtain ⟨a', b', c', d'⟩ := ih s1 a h
+      exact ⟨a', by simp only [List.length_cons]; omega, c'.trans c, fun hm => d' (d hm)⟩
+
+theorem settled_of_quiescent (s : S) (hns : s.stopped = false) (hq : Quiescent s) : Settled s := by
+  have hc := hq .consume
+  have hsd := hq .send
+  have hrv := hq .recv
+  have hfi := hq .fire
+  simp only [lstep] at hc hsd hrv hfi
+  have hsc : s.sendCh = none := by
+    cases hx : s.sendCh with
+    | none => rfl
+    | some r => simp [consume, hx] at hc
+  have hsg : s.sending = none := by
+    cases hx : s.sending with
+    | none => rfl
+    | some r => simp [send, hx, hsc] at hsd
+  have hb : s.batchCh = [] := by
+    cases hx : s.batchCh with
+    | nil => rfl
+    | cons a t =>
+      cases a <;> simp [recv, hx, hns, hsg] at hrv
+      all_goals (split at hrv <;> cases hrv)
+  have ht : s.timer = false := by
+    cases hx : s.timer with
+    | false => rfl
+    | true => simp [fire, hx, hns, hsg] at hfi
+  exact ⟨hsc, hsg, hb, ht⟩
+
 end RqModel.Queue
